@@ -263,8 +263,12 @@ class World(object):
                 self.obs.append("file-no-reuse")
             if rec is not None:
                 rec[5] = True       # the implementation drops a record it found stale; a later match needs a new upload
-        if then in ("up1", "up2"):
-            cap = CAPS[0] if then == "up1" else CAPS[1]
+        if then == "chg-up1":
+            # the file changes (mtime) while its upload is under way; the upload that then completes was started from
+            # the contents check_file saw: the record must carry THOSE attributes
+            self.op_flip(pi, 1)
+        if then in ("up1", "up2", "chg-up1"):
+            cap = CAPS[1] if then == "up2" else CAPS[0]
             r.did_upload(cap)
             if cap not in m["capid"]:
                 m["capid"][cap] = m["nextid"]
@@ -346,6 +350,8 @@ def menu(cfg):
             for ts in ((1, 0) if fam == "files" else (1,)):
                 for th in thens:
                     ops.append(["check", pi, ts, th])
+            if fam == "files":
+                ops.append(["check", pi, 1, "chg-up1"])
         for table in ("caps", "last_upload"):
             for ci in ((0, 1) if fam == "files" else (0,)):
                 ops.append(["forget", table, ci])
